@@ -288,3 +288,41 @@ Proof. exact newton_sqrt_witness. Qed.
 
 Print Assumptions newton_affine_exact.
 Print Assumptions newton_sqrt.
+(* ---- tie of the model to the source of this run (package r2c2): gen/SrcNewton.v / gen/SrcNewtonC.v are regenerated from
+   src/newton.rs and src/matrix/functions.rs by driver/rust2coq.py on every check run; Proofs/SrcEqNewton.v and
+   Proofs/SrcEqNewtonC.v prove ERASURE -- each of the six regenerated solve methods and of the two finite-difference Jacobians
+   equals the instrumented model of Model/Newton.v (at NReal A resp. NCplx S) with the recorded call points projected away,
+   for every arithmetic, every configuration and every closure (an arbitrary function X -> res X); panics included. *)
+From OV Require Proofs.SrcEqNewton.
+Theorem model_is_source_C17_Newton : forall A : Arith, @SrcEqNewton.model_is_source_Newton A.
+Proof. intros A. exact SrcEqNewton.model_is_source_Newton_lemma. Qed.
+Check model_is_source_C17_Newton : forall A : Arith, @SrcEqNewton.model_is_source_Newton A.
+Print Assumptions model_is_source_C17_Newton.
+From OV Require Proofs.SrcEqNewtonC.
+Theorem model_is_source_C17_NewtonC : forall S : SArith, @SrcEqNewtonC.model_is_source_NewtonC S.
+Proof. intros S. exact SrcEqNewtonC.model_is_source_NewtonC_lemma. Qed.
+Check model_is_source_C17_NewtonC : forall S : SArith, @SrcEqNewtonC.model_is_source_NewtonC S.
+Print Assumptions model_is_source_C17_NewtonC.
+(* ---- tie of the model to the source of this run (package r2c2): gen/SrcWrapNewton.v is regenerated on every check run from
+   src/newton.rs: the setters tolerance / delta / iterations / guess and parameters;
+   Proofs/SrcEqWrapNewton.v proves each regenerated function equal to its hand-written model. *)
+From OV Require Proofs.SrcEqWrapNewton.
+Theorem model_is_source_C17_WrapNewton : forall A : Arith, @SrcEqWrapNewton.model_is_source_WrapNewton A.
+Proof. intros A. exact SrcEqWrapNewton.model_is_source_WrapNewton_lemma. Qed.
+Check model_is_source_C17_WrapNewton : forall A : Arith, @SrcEqWrapNewton.model_is_source_WrapNewton A.
+Print Assumptions model_is_source_C17_WrapNewton.
+(* ---- the callee Vec64::norm_inf of the vector solvers: the regenerated function (gen/SrcVec64.v, f64::abs instantiated by
+   the arithmetic's abs) is the loop formulation Newton.norm_inf (NReal _) the Newton model calls *)
+Theorem model_is_source_C17_norm_inf : forall (F : SArith) (v : list (T (SA F))),
+  OV.gen.SrcVec64.s_norm_inf (@OV.Base.Arith.abs (SA F)) v = OV.Model.Newton.norm_inf (OV.Model.Newton.NReal (SA F)) v.
+Proof. intros F v. exact (SrcEqNewton.callee_norm_inf v). Qed.
+Check model_is_source_C17_norm_inf : forall (F : SArith) (v : list (T (SA F))),
+  OV.gen.SrcVec64.s_norm_inf (@OV.Base.Arith.abs (SA F)) v = OV.Model.Newton.norm_inf (OV.Model.Newton.NReal (SA F)) v.
+Print Assumptions model_is_source_C17_norm_inf.
+(* non-vacuity: the regenerated Newton<f64>::solve runs (float instance, f(x) = x*x - 2 from x0 = 1) and returns Ok(sqrt 2) *)
+From Coq Require Import Floats.
+From OV Require Import Inst.FloatInst.
+Example model_is_source_C17_Newton_nonvacuous :
+  SrcNewton.s_newton_solve_f64 (A:=AF) (@mkCfg (T AF) (T AF) 0x1p-30%float 0x1p-27%float 20 1%float) (fun x : T AF => Ok (x*x - 2)%float)
+  = Ok (NOk 0x1.6a09e667f3bcdp+0%float).
+Proof. vm_compute. reflexivity. Qed.
